@@ -86,7 +86,7 @@ pub fn c03(tier: Tier) -> Result<Report, String> {
             }
         }),
         bound: if thorough { 3 } else { 2 },
-        bound_for: None,
+        bound_for: Some(Box::new(move |_sc, cfg| if thorough { 3 } else if cfg.quantum >= 3 { 2 } else { 1 })),
         explicit: Box::new(move |_sc, cfg| {
             if thorough && cfg.quantum >= 5 && cfg.workers <= 2 {
                 Some(300_000)
@@ -202,7 +202,7 @@ pub fn c04(tier: Tier) -> Result<Report, String> {
             }
         }),
         bound: if thorough { 3 } else { 2 },
-        bound_for: None,
+        bound_for: Some(Box::new(move |_sc, cfg| if thorough { 3 } else if cfg.quantum >= 3 { 2 } else { 1 })),
         explicit: Box::new(move |_sc, cfg| {
             if thorough && cfg.quantum >= 5 && cfg.workers <= 2 {
                 Some(300_000)
